@@ -118,7 +118,25 @@ def field(e, name, idx=None):
                     return ("RESID", inner)
             if var == "Ok" and fk == "std::result::Result::<T, E>::map_err":
                 return field(("V", b[3][0], "Ok"), name, idx)
+            if var == "Ready" and (fk.endswith("::poll") or fk.endswith("Future>::poll")) and b[3]:
+                return ("AW", await_source(b[3][0]))
     return ("F", e, name)
+
+
+def await_source(e):
+    """The future being awaited: strip the pin/borrow wrappers and the poll loop's own phi."""
+    for _ in range(6):
+        if e[0] in ("UPD", "UPDF"):
+            e = e[1]
+        elif e[0] == "PHI":
+            arms = [v for (_, v) in e[2] if not any(x[0] == "LOOP" for x in walk(v))]
+            if len(set(arms)) == 1:
+                e = arms[0]
+            else:
+                break
+        else:
+            break
+    return e
 
 
 def downcast(e, variant):
@@ -719,6 +737,8 @@ class VF:
             return None
         if callee.key in self.stack or callee.n > 24 or callee.raw.get("is_coroutine"):
             return None
+        if callee.key in self.facts.async_fns:
+            return None     # async fn: the call only builds the coroutine object
         r = summary(callee, self.depth - 1, self.stack)
         if r is None:
             return None
@@ -1182,6 +1202,8 @@ def render(e, body=None, roots=None, depth=0, short=False, vfx=None):
         return "closure(%s)" % e[1].rsplit("::", 1)[-1]
     if t == "PHI":
         return "phi(%s)" % " | ".join(sorted(set(R(v) for (_, v) in e[2])))
+    if t == "AW":
+        return "await(%s)" % R(e[1])
     if t == "GATE":
         c = R(e[1])
         arms = ["%s => %s" % (guard_str(c, l, "isize", [x[0] for x in e[2]]), R(v)) for (l, v) in e[2]]
